@@ -182,6 +182,7 @@ def exhaustive_items():
     illegal += [f"self, {f}" for f in FOREIGN] + [f"self, tm, {f}" for f in FOREIGN] + [f"self, {f}, initial_call, state_tm" for f in FOREIGN[:6]]
     illegal += [f"{f}, tm" for f in ("me", "s", "cls", "state_tm")]
     illegal += ["tm, self", "initial_call, self, tm", "state_tm, self", "tm, self, state_tm"]     # self present, but not first
+    illegal += ["*self", "**self", "*, self", "*self, tm", "self=None, *, tm"]                      # the first parameter itself is of an illegal kind
     for dec in ("state", "timed_state", "default_state"):
         for p in illegal:
             if p == "":
